@@ -36,6 +36,7 @@ KIND_NAMES = {
     20: "missing-interface-arg", 21: "arg-not-invariant", 22: "extra-required-arg",
     23: "deprecated-implementation", 24: "non-object-member", 25: "duplicate-member",
     26: "oneof-non-null", 27: "oneof-default", 28: "non-null-input-cycle", 29: "default-value-cycle",
+    30: "not-a-named-type", 31: "not-a-directive",
 }
 
 import re
@@ -71,6 +72,8 @@ CLASSIFIER = [
     (re.compile(r"^OneOf input field .* cannot have a default value\.$"), 27),
     (re.compile(r"^Invalid circular reference\. The Input Object "), 28),
     (re.compile(r"^Invalid circular reference\. The default value of Input Object field"), 29),
+    (re.compile(r"^Expected GraphQL named type but got"), 30),
+    (re.compile(r"^Expected directive but got"), 31),
 ]
 
 
@@ -169,9 +172,11 @@ def inval_sdl(iv):
     return s
 
 
-def to_sdl(S):
-    """SDL text of an abstract schema, or None when it has no SDL form."""
-    out = []
+def to_sdl(S, r=None):
+    """SDL text of an abstract schema, or None when it has no SDL form.  With a PRNG the
+    definitions are randomly split into a base definition and an `extend` part, get descriptions
+    and are shuffled (the built schema is the same)."""
+    out, ext = [], []
     names = {t["name"] for t in S["types"]}
     roots = {"query": S.get("query"), "mutation": S.get("mutation"), "subscription": S.get("subscription")}
     default_names = {"query": "Query", "mutation": "Mutation", "subscription": "Subscription"}
@@ -182,46 +187,80 @@ def to_sdl(S):
                 need_def = True
         elif roots[op] != dn:
             need_def = True
+
+    def desc():
+        return '"""d"""\n' if r is not None and r.random() < 0.15 else ""
+
+    def split(l):
+        """(base part, extension part) of a list"""
+        if r is None or not l or r.random() < 0.6:
+            return l, []
+        k = r.randint(0, len(l))
+        return l[:k], l[k:]
+
     if need_def:
         ops = [f"{op}: {roots[op]}" for op in default_names if roots[op] is not None]
         if not ops:
             return None
-        out.append("schema { " + " ".join(ops) + " }")
+        b, e = split(ops)
+        if not b:
+            b, e = ops, []
+        out.append(desc() + "schema { " + " ".join(b) + " }")
+        if e:
+            ext.append("extend schema { " + " ".join(e) + " }")
+    if any(t["kind"] == "bogus" for t in S["types"]) or any(d.get("bogus") for d in S.get("directives", [])):
+        return None
     for d in S.get("directives", []):
         if not d["locations"]:
             return None
         args = [inval_sdl(a) for a in d["args"]]
         if None in args:
             return None
-        out.append(f"directive @{d['name']}" + (("(" + ", ".join(args) + ")") if args else "")
+        out.append(desc() + f"directive @{d['name']}" + (("(" + ", ".join(args) + ")") if args else "")
                    + " on " + " | ".join(d["locations"]))
     for t in S["types"]:
         k, n = t["kind"], t["name"]
         if k == "scalar":
-            out.append(f"scalar {n}")
+            out.append(desc() + f"scalar {n}")
         elif k in ("object", "interface"):
-            head = ("type " if k == "object" else "interface ") + n
-            if t["interfaces"]:
-                head += " implements " + " & ".join(t["interfaces"])
+            kw = "type " if k == "object" else "interface "
             fl = []
             for f in t["fields"]:
                 args = [inval_sdl(a) for a in f["args"]]
                 if None in args:
                     return None
-                fl.append(f"  {f['name']}" + (("(" + ", ".join(args) + ")") if args else "")
+                fl.append(f"  {desc()}{f['name']}" + (("(" + ", ".join(args) + ")") if args else "")
                           + f": {tref_sdl(f['type'])}" + (" @deprecated" if f.get("dep") else ""))
-            out.append(head + (" {\n" + "\n".join(fl) + "\n}" if fl else ""))
+            (fb, fe), (ib, ie) = split(fl), split(t["interfaces"])
+            for tgt, pre, ff, ii in ((out, desc() + kw, fb, ib), (ext, "extend " + kw, fe, ie)):
+                if tgt is ext and not ff and not ii:
+                    continue
+                tgt.append(pre + n + ((" implements " + " & ".join(ii)) if ii else "")
+                           + (" {\n" + "\n".join(ff) + "\n}" if ff else ""))
         elif k == "union":
-            out.append(f"union {n}" + ((" = " + " | ".join(t["members"])) if t["members"] else ""))
+            b, e = split(t["members"])
+            out.append(desc() + f"union {n}" + ((" = " + " | ".join(b)) if b else ""))
+            if e:
+                ext.append(f"extend union {n} = " + " | ".join(e))
         elif k == "enum":
-            out.append(f"enum {n}" + ((" { " + " ".join(t["values"]) + " }") if t["values"] else ""))
+            b, e = split(t["values"])
+            out.append(desc() + f"enum {n}" + ((" { " + " ".join(b) + " }") if b else ""))
+            if e:
+                ext.append(f"extend enum {n}" + " { " + " ".join(e) + " }")
         elif k == "input":
             fl = [inval_sdl(a) for a in t["fields"]]
             if None in fl:
                 return None
-            out.append(f"input {n}" + (" @oneOf" if t.get("oneof") else "")
-                       + ((" {\n  " + "\n  ".join(fl) + "\n}") if fl else ""))
-    return "\n".join(out) + "\n"
+            b, e = split(fl)
+            out.append(desc() + f"input {n}" + (" @oneOf" if t.get("oneof") else "")
+                       + ((" {\n  " + "\n  ".join(b) + "\n}") if b else ""))
+            if e:
+                ext.append(f"extend input {n}" + " {\n  " + "\n  ".join(e) + "\n}")
+    if r is not None:
+        out = out + ext
+        r.shuffle(out)
+        ext = []
+    return "\n".join(out + ext) + "\n"
 
 
 def build_prog(S, rng=None, force_mode=None):
@@ -236,6 +275,13 @@ def build_prog(S, rng=None, force_mode=None):
     from graphql.language import DirectiveLocation
     reg = {"Int": GraphQLInt, "Float": GraphQLFloat, "String": GraphQLString,
            "Boolean": GraphQLBoolean, "ID": GraphQLID}
+
+    class Bogus:  # an object that is not a GraphQL type (has a name, is hashable)
+        def __init__(self, name):
+            self.name = name
+
+        def __repr__(self):
+            return f"<Bogus {self.name}>"
 
     def ty(t):
         if t[0] == "n":
@@ -273,6 +319,8 @@ def build_prog(S, rng=None, force_mode=None):
         k, n = t["kind"], t["name"]
         if k == "scalar":
             reg[n] = GraphQLScalarType(n)
+        elif k == "bogus":
+            reg[n] = Bogus(n)
         elif k == "object":
             reg[n] = GraphQLObjectType(n, fields(t), interfaces=(lambda t=t: [reg[i] for i in t["interfaces"]]))
         elif k == "interface":
@@ -287,6 +335,9 @@ def build_prog(S, rng=None, force_mode=None):
                 is_one_of=bool(t.get("oneof")))
     dirs = list(specified_directives)
     for d in S.get("directives", []):
+        if d.get("bogus"):
+            dirs.append(Bogus(d["name"]) if d["name"] != "str" else "not a directive")
+            continue
         dirs.append(GraphQLDirective(d["name"], [DirectiveLocation[x] for x in d["locations"]],
                                      args=args(d["args"])))
     return GraphQLSchema(
@@ -368,11 +419,11 @@ def dump_schema(schema):
             return ["nn", tref(t.of_type)]
         if isinstance(t, GraphQLList):
             return ["l", tref(t.of_type)]
-        if isinstance(t, GraphQLNamedType):
+        if isinstance(t, GraphQLNamedType) or isinstance(getattr(t, "name", None), str):
             if schema.type_map.get(t.name) is not t:
                 raise OutOfFragment("reference to a type that is not the type map's")
             return ["n", t.name]
-        raise OutOfFragment("type position holds a non-type")
+        raise OutOfFragment("type position holds an unnamed non-type")
 
     def inval(name, a):
         d = None
@@ -410,11 +461,13 @@ def dump_schema(schema):
             types.append({"name": name, "kind": "input", "oneof": bool(t.is_one_of),
                           "fields": [inval(fn, f) for fn, f in t.fields.items()]})
         else:
-            raise OutOfFragment("type map holds a non-type")
+            types.append({"name": name, "kind": "bogus"})
     dirs = []
     for d in schema.directives:
         if not isinstance(d, GraphQLDirective):
-            raise OutOfFragment("directive list holds a non-directive")
+            dirs.append({"name": getattr(d, "name", None) if isinstance(getattr(d, "name", None), str) else "str",
+                         "bogus": True, "locations": [], "args": []})
+            continue
         if is_specified_directive(d):
             continue
         dirs.append({"name": d.name, "locations": [l.name for l in d.locations],
@@ -439,6 +492,8 @@ def canon(S):
             if t["name"] in BUILTIN:
                 continue
             ts[t["name"]] = ("scalar",)
+        elif k == "bogus":
+            ts[t["name"]] = ("bogus",)
         elif k in ("object", "interface"):
             ts[t["name"]] = (k, tuple((f["name"], json.dumps(f["type"]), bool(f.get("dep")),
                                        tuple(iv(a) for a in f["args"])) for f in t["fields"]),
@@ -450,8 +505,8 @@ def canon(S):
         else:
             ts[t["name"]] = (k, bool(t.get("oneof")), tuple(iv(a) for a in t["fields"]))
     return (ts, S.get("query"), S.get("mutation"), S.get("subscription"),
-            tuple((d["name"], bool(d["locations"]), tuple(iv(a) for a in d["args"]))
-                  for d in S.get("directives", [])))
+            tuple(sorted((d["name"], bool(d.get("bogus")), bool(d["locations"]), tuple(iv(a) for a in d["args"]))
+                         for d in S.get("directives", []))))
 
 
 # ----------------------------------------------------------------------------- wire encoding
@@ -543,6 +598,8 @@ def wire(S):
         out.append(ids[t["name"]])
         if k == "scalar":
             out += [0, SORT.get(t["name"], 5)]
+        elif k == "bogus":
+            out += [6]
         elif k in ("object", "interface"):
             out += [1 if k == "object" else 2, len(t["fields"])] + [y for f in t["fields"] for y in e_f(f)]
             out += [len(t["interfaces"])] + [ids[i] for i in t["interfaces"]]
@@ -557,7 +614,8 @@ def wire(S):
     ds = S.get("directives", [])
     out.append(len(ds))
     for d in ds:
-        out += [ids[d["name"]], 1 if d["locations"] else 0, len(d["args"])] + [y for a in d["args"] for y in e_iv(a)]
+        out += [ids[d["name"]], 0 if d.get("bogus") else 1, 1 if d["locations"] else 0, len(d["args"])] \
+            + [y for a in d["args"] for y in e_iv(a)]
     return out
 
 
@@ -1332,6 +1390,358 @@ MUTATIONS = [
 ]
 
 
+# ---- more operators: defaults of input-object type, covariance direction, near misses, non-GraphQL objects
+
+
+def valid_lit(S, t, r, depth=2, nonnull=False):
+    """A literal valid for type t of abstract schema S (needs well-kinded input types)."""
+    tm = tmap(S)
+    if t[0] == "nn":
+        return valid_lit(S, t[1], r, depth, True)
+    if not nonnull and (depth <= 0 or r.random() < 0.1):
+        return ["null"]
+    if t[0] == "l":
+        if depth <= 0:
+            return ["list", []]
+        return ["list", [valid_lit(S, t[1], r, depth - 1) for _ in range(r.randint(0, 2))]]
+    n = t[1]
+    if n == "Int":
+        return ["int", r.randint(-9, 9)]
+    if n == "Float":
+        return ["float"]
+    if n in ("String", "ID"):
+        return ["str"]
+    if n == "Boolean":
+        return ["bool", True]
+    d = tm.get(n)
+    if d is None or d["kind"] == "scalar":
+        return ["str"]
+    if d["kind"] == "enum":
+        if not d["values"]:
+            raise ValueError("empty enum")
+        return ["enum", r.choice(d["values"])]
+    if d["kind"] != "input" or depth < -6:
+        raise ValueError("no valid literal")
+    if d.get("oneof"):
+        f = d["fields"][0] if depth <= 0 else r.choice(d["fields"])
+        return ["obj", [[f["name"], valid_lit(S, f["type"], r, depth - 1, True)]]]
+    kvs = []
+    for f in d["fields"]:
+        if (f["type"][0] == "nn" and f["default"] is None) or (depth > 0 and r.random() < 0.5):
+            kvs.append([f["name"], valid_lit(S, f["type"], r, depth - 1)])
+    return ["obj", kvs]
+
+
+def invals_of_kind(S, *kinds):
+    tm = tmap(S)
+    c = [a for _, _, a in field_args(S)] + [a for _, a in dir_args(S)] + [a for _, a in input_fields(S)]
+    return [a for a in c if tm.get(named_of(a["type"]), {}).get("kind") in kinds], tm
+
+
+def _set_obj_default(S, r, pred, edit):
+    c, tm = invals_of_kind(S, "input")
+    c = [a for a in c if a["type"][0] == "n" or (a["type"][0] == "nn" and a["type"][1][0] == "n")]
+    c = [a for a in c if pred(tm[named_of(a["type"])])]
+    if not c:
+        return False
+    a = r.choice(c)
+    d = tm[named_of(a["type"])]
+    v = valid_lit(S, ["nn", tn(d["name"])], r, 2)
+    if not edit(d, v, r):
+        return False
+    a["default"] = ["lit", v, "literal" if lit_has_enum(v) else r.choice(["literal", "value"])]
+    a["dep"] = False
+    return True
+
+
+def M_default_missing_required(S, r):
+    def edit(d, v, r):
+        req = [f["name"] for f in d["fields"] if f["type"][0] == "nn" and f["default"] is None]
+        if not req:
+            return False
+        k = r.choice(req)
+        v[1][:] = [kv for kv in v[1] if kv[0] != k]
+        return True
+    return _set_obj_default(S, r, lambda d: not d.get("oneof"), edit)
+
+
+def M_default_unknown_field(S, r):
+    def edit(d, v, r):
+        v[1].append(["zunknown", ["int", 1]])
+        return True
+    return _set_obj_default(S, r, lambda d: True, edit)
+
+
+def M_default_oneof_two(S, r):
+    def edit(d, v, r):
+        other = [f for f in d["fields"] if f["name"] != v[1][0][0]]
+        if not other:
+            return False
+        f = r.choice(other)
+        v[1].append([f["name"], valid_lit(S, f["type"], r, 1, True)])
+        return True
+    return _set_obj_default(S, r, lambda d: d.get("oneof") and d["fields"], edit)
+
+
+def M_default_oneof_null(S, r):
+    def edit(d, v, r):
+        v[1][0][1] = ["null"]
+        return True
+    return _set_obj_default(S, r, lambda d: d.get("oneof") and d["fields"], edit)
+
+
+def M_default_oneof_empty(S, r):
+    def edit(d, v, r):
+        v[1][:] = []
+        return True
+    return _set_obj_default(S, r, lambda d: d.get("oneof") and d["fields"], edit)
+
+
+def M_default_nested_bad(S, r):
+    """A wrong value deep inside an otherwise valid object default."""
+    def edit(d, v, r):
+        if not v[1]:
+            return False
+        kv = r.choice(v[1])
+        kv[1] = ["obj", [["zdeep", ["bool", True]]]] if kv[1][0] != "obj" else ["int", 3]
+        f = [f for f in d["fields"] if f["name"] == kv[0]][0]
+        return named_of(f["type"]) in BUILTIN or tmap(S).get(named_of(f["type"]), {}).get("kind") in ("enum", "input")
+    return _set_obj_default(S, r, lambda d: not d.get("oneof"), edit)
+
+
+WRONG_LEAF = {
+    "Int": [["int", 2 ** 31], ["int", -2 ** 31 - 1], ["float"], ["str"], ["bool", True], ["enum", "X"], ["list", [["str"]]]],
+    "Float": [["str"], ["bool", False], ["enum", "X"], ["obj", []]],
+    "String": [["int", 1], ["float"], ["bool", True], ["enum", "X"]],
+    "Boolean": [["int", 0], ["str"], ["enum", "X"], ["float"]],
+    "ID": [["float"], ["bool", True], ["enum", "X"], ["obj", []]],
+}
+
+
+def M_default_wrong_leaf(S, r):
+    tm = tmap(S)
+    c = [a for _, _, a in field_args(S)] + [a for _, a in dir_args(S)] + [a for _, a in input_fields(S)]
+    c = [a for a in c if named_of(a["type"]) in BUILTIN or tm.get(named_of(a["type"]), {}).get("kind") == "enum"]
+    if not c:
+        return False
+    a = r.choice(c)
+    n = named_of(a["type"])
+    bad = r.choice(WRONG_LEAF[n]) if n in BUILTIN else r.choice([["str"], ["int", 1], ["enum", "ZNOPE"], ["bool", True]])
+    # put it at the leaf position of the wrappers
+    def at(t, v):
+        if t[0] == "nn":
+            return at(t[1], v)
+        if t[0] == "l" and r.random() < 0.7:
+            return ["list", [at(t[1], v)]]
+        if t[0] == "l":
+            return at(t[1], v)
+        return v
+    v = at(a["type"], copy.deepcopy(bad))
+    a["default"] = ["lit", v, "literal" if lit_has_enum(v) else r.choice(["literal", "value"])]
+    a["dep"] = False
+    return True
+
+
+def M_default_null_item(S, r):
+    """[null] for a list of non-null items."""
+    c = [a for _, _, a in field_args(S)] + [a for _, a in dir_args(S)] + [a for _, a in input_fields(S)]
+    def has(t):
+        return t[0] == "l" and t[1][0] == "nn" or (t[0] != "n" and has(t[1]))
+    c = [a for a in c if has(a["type"])]
+    if not c:
+        return False
+    a = r.choice(c)
+    def mk(t):
+        if t[0] == "nn":
+            return mk(t[1])
+        if t[0] == "l":
+            return ["list", [["null"]]] if t[1][0] == "nn" else ["list", [mk(t[1])]]
+        return ["null"]
+    a["default"] = ["lit", mk(a["type"]), r.choice(["literal", "value"])]
+    a["dep"] = False
+    return True
+
+
+def M_reverse_covariance(S, r):
+    """The implementing field returns a SUPER type of the interface field's type."""
+    tm = tmap(S)
+    c = []
+    for t, f, it, jf in inherited(S):
+        n = named_of(jf["type"])
+        d = tm.get(n)
+        if d and d["kind"] in ("object", "interface"):
+            sup = list(d["interfaces"]) + [u["name"] for u in types_of(S, "union") if n in u["members"]]
+            sup = [x for x in sup if x != n]
+            if sup:
+                c.append((f, jf, sup))
+    if not c:
+        return False
+    f, jf, sup = r.choice(c)
+    def repl(t, new):
+        return tn(new) if t[0] == "n" else [t[0], repl(t[1], new)]
+    f["type"] = repl(copy.deepcopy(jf["type"]), r.choice(sup))
+    return True
+
+
+def M_covariance_list_depth(S, r):
+    c = inherited(S)
+    if not c:
+        return False
+    t, f, it, jf = r.choice(c)
+    jt = copy.deepcopy(jf["type"])
+    f["type"] = ["l", ["nn", jt]] if jt[0] != "nn" else ["nn", ["l", jt]]
+    return True
+
+
+def M_iface_arg_default_only(S, r):
+    """Validity-preserving: an implementation may change an argument's default/deprecation."""
+    c = [(t, f, it, jf) for t, f, it, jf in inherited(S) if f["args"]]
+    if not c:
+        return False
+    t, f, it, jf = r.choice(c)
+    a = r.choice(f["args"])
+    tm = tmap(S)
+    try:
+        a["default"] = ["lit", valid_lit(S, a["type"], r, 1), "literal"]
+    except ValueError:
+        return False
+    return True
+
+
+def M_ok_selfref_null_default(S, r):
+    """Validity-preserving near miss of a default cycle / non-null cycle."""
+    c = [t for t in types_of(S, "input") if not t.get("oneof")]
+    if not c:
+        return False
+    t = r.choice(c)
+    shape = r.randrange(4)
+    if shape == 0:
+        t["fields"].append({"name": "zk", "type": tn(t["name"]), "dep": False, "default": ["lit", ["null"], "literal"]})
+    elif shape == 1:
+        t["fields"].append({"name": "zk", "type": ["nn", ["l", ["nn", tn(t["name"])]]], "dep": False,
+                            "default": ["lit", ["list", []], r.choice(["literal", "value"])]})
+    elif shape == 2:
+        t["fields"].append({"name": "zk", "type": ["l", tn(t["name"])], "dep": False, "default": None})
+    else:
+        t["fields"].append({"name": "zk", "type": tn(t["name"]), "dep": False, "default": ["internal"]})
+    return True
+
+
+def M_default_cycle_nested(S, r):
+    """A.zx: B = {zy: {}}  with  B.zy: A  -  the cycle goes through a provided nested object."""
+    c = [t for t in types_of(S, "input") if not t.get("oneof")]
+    if not c:
+        return False
+    a = r.choice(c)
+    b = r.choice(c)
+    if any(f["type"][0] == "nn" and f["default"] is None for f in a["fields"] + b["fields"]):
+        pass  # the nested {} is then also an invalid default: both kinds are expected
+    b["fields"].append({"name": "zy", "type": tn(a["name"]), "dep": False, "default": None})
+    a["fields"].append({"name": "zx", "type": tn(b["name"]), "dep": False,
+                        "default": ["lit", ["obj", [["zy", ["obj", []]]]], r.choice(["literal", "value"])]})
+    return True
+
+
+def M_default_cycle_broken(S, r):
+    """Near miss: the nested object provides the field, so its default is not applied."""
+    c = [t for t in types_of(S, "input") if not t.get("oneof")]
+    if not c:
+        return False
+    a = r.choice(c)
+    a["fields"].append({"name": "zx", "type": tn(a["name"]), "dep": False,
+                        "default": ["lit", ["obj", [["zx", ["null"]]]], r.choice(["literal", "value"])]})
+    return True
+
+
+def _add_bogus(S):
+    n = "Bog%d" % len(S["types"])
+    S["types"].append({"name": n, "kind": "bogus"})
+    return n
+
+
+def M_bogus_type(S, r):
+    _add_bogus(S)
+    return True
+
+
+def M_bogus_reserved_name(S, r):
+    S["types"].append({"name": "__Bog", "kind": "bogus"})
+    return True
+
+
+def M_bogus_field_type(S, r):
+    c = out_fields(S)
+    if not c:
+        return False
+    r.choice(c)[1]["type"] = wrap_rand(r, tn(_add_bogus(S)))
+    return True
+
+
+def M_bogus_arg_type(S, r):
+    c = [a for _, _, a in field_args(S)] + [a for _, a in dir_args(S)] + [a for _, a in input_fields(S)]
+    if not c:
+        return False
+    a = r.choice(c)
+    a["type"] = wrap_rand(r, tn(_add_bogus(S)))
+    if r.random() < 0.6:
+        a["default"] = ["lit", r.choice([["int", 1], ["obj", []], ["null"], ["list", [["str"]]]]), r.choice(["literal", "value"])]
+    return True
+
+
+def M_bogus_interface(S, r):
+    c = types_of(S, "object", "interface")
+    t = r.choice(c)
+    t["interfaces"].insert(r.randint(0, len(t["interfaces"])), _add_bogus(S))
+    return True
+
+
+def M_bogus_member(S, r):
+    c = types_of(S, "union")
+    if not c:
+        return False
+    t = r.choice(c)
+    t["members"].insert(r.randint(0, len(t["members"])), _add_bogus(S))
+    return True
+
+
+def M_bogus_root(S, r):
+    S[r.choice(["query", "mutation", "subscription"])] = _add_bogus(S)
+    return True
+
+
+def M_bogus_directive(S, r):
+    S["directives"].insert(r.randint(0, len(S["directives"])),
+                           {"name": r.choice(["str", "bogd"]), "bogus": True, "locations": [], "args": []})
+    return True
+
+
+MUTATIONS += [
+    M_default_missing_required, M_default_unknown_field, M_default_oneof_two, M_default_oneof_null,
+    M_default_oneof_empty, M_default_nested_bad, M_default_wrong_leaf, M_default_null_item,
+    M_reverse_covariance, M_covariance_list_depth, M_default_cycle_nested,
+    M_bogus_type, M_bogus_reserved_name, M_bogus_field_type, M_bogus_arg_type, M_bogus_interface,
+    M_bogus_member, M_bogus_root, M_bogus_directive,
+]
+# operators that must keep a valid schema valid
+BENIGN = [M_iface_arg_default_only, M_ok_selfref_null_default, M_default_cycle_broken]
+
+
+class SiteRng:
+    """PRNG whose FIRST choice() (the mutation site) is dictated: lets the driver enumerate all sites."""
+
+    def __init__(self, rng, first):
+        self._r, self._first, self.options = rng, first, None
+
+    def choice(self, seq):
+        if self.options is None:
+            self.options = len(seq)
+            return seq[self._first % len(seq)]
+        return self._r.choice(seq)
+
+    def __getattr__(self, name):
+        return getattr(self._r, name)
+
+
 # ----------------------------------------------------------------------------- grammar-random (ill-kinded) schemas
 
 
@@ -1394,6 +1804,10 @@ def random_raw(r, n=None):
             types.append({"name": nm, "kind": k, "oneof": r.random() < 0.25,
                           "fields": [riv(f"a{i}") for i in range(r.randint(0, 3))]})
     S = {"types": types, "query": None, "mutation": None, "subscription": None, "directives": []}
+    if r.random() < 0.08:
+        types.append({"name": "Bog", "kind": "bogus"})
+        anyname.append("Bog")
+        names = names + ["Bog"]
     if "Query" in names and r.random() < 0.8:
         S["query"] = "Query"
         if "Mutation" in names:
@@ -1426,6 +1840,7 @@ def impl_observe(schema):
             errs = None
         else:
             ob["messages"] = [e.message for e in errs]
+            ob["cached"] = validate_schema(schema) is errs
     except Exception as e:  # noqa: BLE001
         ob["raised"] = f"{type(e).__name__}: {str(e)[:120]}"
     try:
@@ -1507,10 +1922,13 @@ class Runner:
                     continue
                 self.add_built("programmatic", {"label": label, "abstract": S, "force_mode": mode}, sch, S)
         if sdl:
-            text = to_sdl(S)
+            ext = rng.random() < 0.5
+            text = to_sdl(S, rng if ext else None)
             if text is None:
                 ck.count("no_sdl_form")
                 return
+            if ext and "extend " in text:
+                ck.count("sdl_with_extensions")
             for av in (True, False):
                 try:
                     sch = build_schema(text, assume_valid_sdl=av)
@@ -1562,16 +1980,22 @@ class Runner:
                 ck.count(f"kind:{KIND_NAMES.get(k, k)}")
             if masked:
                 ck.count("default_meets_non_input_type")
-            label = info.get("label", "")
+            label = info.get("label", "") or ""
+            if label.endswith(":benign"):
+                ck.count("benign_mutant_valid" if not mk else "benign_mutant_invalid_by_rules")
             if ob["raised"] is not None:
                 sites = sorted(default_sites(D)) or ["nested-input-field"]
-                if not masked:
+                bogus = {t["name"] for t in D["types"] if t["kind"] == "bogus"}
+                if any(D.get(op) in bogus for op in ("query", "mutation", "subscription")):
+                    sites = ["non-type-root"]
+                elif not masked:
                     sites = ["other:" + h]
                 for site in sites:
                     self.group("raises:" + site, size + (0 if len(sites) == 1 else 10 ** 6),
                                f"validate_schema-raises:{site}",
                                f"validate_schema raised {ob['raised']} instead of returning errors "
-                               f"(default value at {site} position whose type is not an input type); "
+                               + ("(a root operation type that is not a GraphQL type object); " if site == "non-type-root" else
+                                  f"(default value at {site} position whose type is not an input type); ") +
                                f"graphql_sync: {ob['sync']}; expected rule kinds {replay['model_kinds']}", replay)
                 ck.count("impl_raised")
                 continue
@@ -1582,6 +2006,8 @@ class Runner:
                     uncl.append(msg)
                 else:
                     kinds.add(k)
+            if ob.get("cached") is False:
+                self.group("cache", size, f"cache:{h}", "a second validate_schema call did not return the cached list", replay)
             if ob["sync"] != "ok":
                 self.group("sync:" + ob["sync"][:30], size, f"graphql_sync:{h}",
                            f"graphql_sync on the schema: {ob['sync']}", replay)
@@ -1642,15 +2068,20 @@ def run(tier):
     quick = tier == "quick"
     n_base = 60 if quick else 1500
     n_double = 6 if quick else 12
+    n_allsites = 6 if quick else 150      # base schemas on which every operator is applied at every site
     n_raw = 500 if quick else 15000
     ck.rule = (f"{n_base} schemas from the valid-schema generator (all kinds, interface hierarchies, recursive inputs with "
                "nullable/list breaks, OneOf, custom directives, non-default roots, literal/value/internal defaults), each built "
                "programmatically and from SDL with and without SDL pre-validation; every mutation operator "
-               f"({len(MUTATIONS)}) applied once to every base schema plus {n_double} sampled operator pairs; {n_raw} grammar-random "
+               f"({len(MUTATIONS)} violating + {len(BENIGN)} validity-preserving) applied at one random site of every base schema and at "
+               f"every site (<= 12 per operator) of the first {n_allsites} base schemas, plus {n_double} sampled operator pairs per base; {n_raw} grammar-random "
                "ill-kinded schemas (any reference may name any type) built three ways; corpus first. Compared per built schema: "
                "validate_schema raises?, emptiness, set of rule kinds, graphql_sync response. non-trivial = the rule checker "
                "reports at least one kind, or the schema has more than 6 types")
 
+    for c in common.load_corpus("C20"):
+        if "abstract" in c:
+            rn.add_abstract(c["abstract"], "corpus", r, sdl=False, prog=True)
     for c in CORPUS_BUILTIN + [c for c in common.load_corpus("C20") if "sdl" in c]:
         try:
             sch = build_schema(c["sdl"], assume_valid_sdl=bool(c.get("assume_valid_sdl")))
@@ -1662,17 +2093,25 @@ def run(tier):
     for i in range(n_base):
         S = ValidGen(r, big=(i % 3 == 0)).schema()
         rn.add_abstract(S, "valid", r)
-        for mu in MUTATIONS:
-            S2 = copy.deepcopy(S)
-            try:
-                if not mu(S2, r):
+        all_sites = i < n_allsites
+        for mu in MUTATIONS + BENIGN:
+            first = 0
+            while True:
+                S2 = copy.deepcopy(S)
+                sr = SiteRng(r, first) if all_sites else r
+                try:
+                    ok = mu(S2, sr)
+                except (KeyError, IndexError, ValueError):
+                    ok = False
+                if not ok:
                     ck.count("mutation_not_applicable")
-                    continue
-            except (KeyError, IndexError, ValueError):
-                ck.count("mutation_not_applicable")
-                continue
-            ck.count(f"mut:{mu.__name__[2:]}")
-            rn.add_abstract(S2, mu.__name__[2:], r, sdl=(i % 2 == 0), prog=True)
+                else:
+                    ck.count(f"mut:{mu.__name__[2:]}")
+                    lab = mu.__name__[2:] + (":benign" if mu in BENIGN else "")
+                    rn.add_abstract(S2, lab, r, sdl=(i % 2 == 0), prog=True)
+                first += 1
+                if not all_sites or sr.options is None or first >= min(sr.options, 12):
+                    break
         for _ in range(n_double):
             S2 = copy.deepcopy(S)
             m1, m2 = r.sample(MUTATIONS, 2)
